@@ -73,6 +73,17 @@ Inductive case :=
 (* the code's lists, re-extracted from the source on every run *)
 Definition gen_cov : list str := signedHeaders.
 Definition gen_covh : list str := hmac_names SignatureHeaders.
+(* Bodies above a megabyte (the driver sends a few of 33-40 MiB) are not materialised at all: a list of
+   34 million bytes costs coqc gigabytes per copy. They are ABSTRACTED by a short stand-in that is an
+   injective function of the generator term the driver used (prefix, byte, length): every place of the case
+   whose bytes the driver found equal to the body sent refers to the one stand-in, a place that differs is
+   written out (abbreviated). This is sound for [judge] because neither the model nor the monitor looks
+   inside a body or at its length — they compare and concatenate it (the Content-Length the transport writes
+   comes from the [r_clen] field, which carries the TRUE length) — and the verification verdicts are
+   computed by the driver with the real primitives over the real bytes. Trusted like SEALED/SIG/MAC. *)
+Definition big_body (p : str) (c : N) (n : N) : str :=
+  [60;98;111;100;121;32] ++ p ++ [32] ++ [c] ++ [32;42;32] ++ dec n ++ [62]. (* "<body " p " " c " * " n ">" *)
+
 (* a long body written compactly by the driver: a prefix, then one byte repeated, [n] bytes in all *)
 Definition fill (p : str) (c : N) (n : N) : str := p ++ repeat c (N.to_nat n - length p).
 
@@ -81,7 +92,7 @@ Definition loopback : str := [49;50;55;46;48;46;48;46;49]. (* "127.0.0.1" *)
 (* the received request as an upstream handler has it: Body non-nil, no fragment *)
 Definition of_obs (o : obs_req) : request :=
   {| r_method := o_method o; r_host := []; r_headers := o_headers o; r_path := o_path o;
-     r_rawquery := o_rawquery o; r_fragment := []; r_body := Some (o_body o); r_chunked := false;
+     r_rawquery := o_rawquery o; r_fragment := []; r_body := Some (o_body o); r_chunked := false; r_clen := 0;
      r_sso_sig := None; r_kid := None; r_gap_sig := None |}.
 
 Definition has_header (k : str) (h : headers) : bool := negb (is_empty (hvals k h)).
